@@ -14,6 +14,7 @@ THEOREMS = ["EngineModel.Properties.C08V2." + t for t in [
     "C08V2_frame_add_remove",
     "C08V2_add_present_noop",
     "C08V2_remove_absent_noop",
+    "C08V2_remove_track_spares_foreign_entries",
     "C08V2_removal_erases",
 ]]
 ASSUMPTIONS = [
@@ -21,8 +22,10 @@ ASSUMPTIONS = [
     "valid snapshot); databaseUuid of every PlaylistEntity row is the library's own and membershipReference is 0 (checked on "
     "the raw dump)",
 ]
-MANIFEST_TEXT = ("Schema 2.x: refinement of the membership Spec by the PlaylistEntity model for every history of the crate / "
-                 "track API (contents = added and not removed, no duplicates, only live tracks and crates, frame property), tied "
+MANIFEST_TEXT = ("Schema 2.x: Lean theorems (Properties/C08V2.lean): for every history of the crate / track API the Spec.Members "
+                 "judge never objects and tracks exactly the abstraction of the PlaylistEntity table (contents = added and not "
+                 "removed, no duplicates, only live tracks and crates; frame theorem: an operation changes no pair it is not "
+                 "about; add of a present entry and remove of an absent one are no-ops; track / crate removal erase), tied "
                  "to the real library on histories that de-synchronise crate ids, track ids and entity-row ids.")
 replay = cv.replay
 
